@@ -1,5 +1,5 @@
 use super::{
-    Namespace, TryFromNode,
+    Namespace, TryFromNode, rust_str,
     doc::{RustDocument, Wanted},
 };
 use crate::{
@@ -174,13 +174,14 @@ where
             writeln!(
                 writer,
                 "    #[yaserde(prefix = \"{}\", rename = \"{}\"{attribute_header})]",
-                tns.abbreviation, self.xml_name
+                tns.abbreviation,
+                rust_str(&self.xml_name)
             )?;
         } else {
             writeln!(
                 writer,
                 "    #[yaserde(rename = \"{}\"{attribute_header})]",
-                self.xml_name
+                rust_str(&self.xml_name)
             )?;
         }
 
